@@ -1277,3 +1277,76 @@ func lemma_C02_conformantStream() bool {
 	return spec_expect(v, 9, 1, 1040, 2, b, a2) && spec_expect(v, 9, 1, 1060, 2, b, a3) && spec_expect(v, 9, 1, 1080, 2, b, a4) &&
 		spec_expect(v, 18, 7, 5, 1, b, c0) && ghost_rd_pos(v.r) == ghost_rd_len(v.r)
 }
+
+// ---------- C01/C08: the handshake blocks (RTMP 1.0 5.2): C0/S0 is one byte, C1/S1 and C2/S2 are 1536 bytes ----------
+// A reader takes exactly the block off the transport, however the transport segments it, or fails; it never returns a
+// short block, and never leaves part of a block behind after a success.
+
+func spec_readBlock(r io.Reader, n int, b []byte, err error) bool {
+	p := ghost_old_rd_pos(r)
+	if ghost_rd_len(r)-p < n {
+		return err != nil
+	}
+	return err == nil && len(b) == n && ghost_rd_pos(r) == p+n && prim_forall(n, func(i int) bool { return b[i] == ghost_rd_at(r, p+i) })
+}
+
+//@ requires (*Handshake).ReadC0S0
+func req_ReadC0S0(r io.Reader) bool { return r != nil }
+
+//@ ensures (*Handshake).ReadC0S0 C01.handshake.read-c0s0
+func ens_ReadC0S0(r io.Reader, c0 []byte, err error) bool { return spec_readBlock(r, 1, c0, err) }
+
+//@ ensures (*Handshake).ReadC0S0 C08.rtmp.handshake
+func ens_ReadC0S0_err(err error) bool { return spec_errKeepsRoot(err) }
+
+//@ assigns (*Handshake).ReadC0S0 ghost.rd(r), ghost.ioerr
+
+//@ requires (*Handshake).ReadC1S1
+func req_ReadC1S1(r io.Reader) bool { return r != nil }
+
+//@ ensures (*Handshake).ReadC1S1 C01.handshake.read-c1s1
+func ens_ReadC1S1(r io.Reader, c1 []byte, err error) bool { return spec_readBlock(r, 1536, c1, err) }
+
+//@ ensures (*Handshake).ReadC1S1 C08.rtmp.handshake
+func ens_ReadC1S1_err(err error) bool { return spec_errKeepsRoot(err) }
+
+//@ assigns (*Handshake).ReadC1S1 ghost.rd(r), ghost.ioerr
+
+//@ requires (*Handshake).ReadC2S2
+func req_ReadC2S2(r io.Reader) bool { return r != nil }
+
+//@ ensures (*Handshake).ReadC2S2 C01.handshake.read-c2s2
+func ens_ReadC2S2(r io.Reader, c2 []byte, err error) bool { return spec_readBlock(r, 1536, c2, err) }
+
+//@ ensures (*Handshake).ReadC2S2 C08.rtmp.handshake
+func ens_ReadC2S2_err(err error) bool { return spec_errKeepsRoot(err) }
+
+//@ assigns (*Handshake).ReadC2S2 ghost.rd(r), ghost.ioerr
+
+// the writers put exactly their block on the transport: version 3; the echo of the peer's block
+//@ requires (*Handshake).WriteC0S0
+func req_WriteC0S0(w io.Writer) bool { return w != nil }
+
+//@ ensures (*Handshake).WriteC0S0 C01.handshake.write-c0s0
+func ens_WriteC0S0(w io.Writer, err error) bool {
+	return err != nil || ghost_wr_len(w) == ghost_old_wr_len(w)+1 && ghost_wr_at(w, ghost_old_wr_len(w)) == 3
+}
+
+//@ ensures (*Handshake).WriteC0S0 C08.rtmp.handshake
+func ens_WriteC0S0_err(err error) bool { return spec_errKeepsRoot(err) }
+
+//@ assigns (*Handshake).WriteC0S0 ghost.wr(w), ghost.ioerr
+
+//@ requires (*Handshake).WriteC2S2
+func req_WriteC2S2(w io.Writer) bool { return w != nil }
+
+//@ ensures (*Handshake).WriteC2S2 C01.handshake.write-c2s2
+func ens_WriteC2S2(w io.Writer, s1c1 []byte, err error) bool {
+	o := ghost_old_wr_len(w)
+	return err != nil || ghost_wr_len(w) == o+len(s1c1) && prim_forall(len(s1c1), func(i int) bool { return ghost_wr_at(w, o+i) == s1c1[i] })
+}
+
+//@ ensures (*Handshake).WriteC2S2 C08.rtmp.handshake
+func ens_WriteC2S2_err(err error) bool { return spec_errKeepsRoot(err) }
+
+//@ assigns (*Handshake).WriteC2S2 ghost.wr(w), ghost.ioerr
